@@ -1,4 +1,7 @@
+#![recursion_limit = "512"]
 mod check;
+mod conc;
+mod conc_check;
 mod events;
 mod exec;
 mod gen;
@@ -9,6 +12,7 @@ mod node;
 mod obs;
 mod ops;
 mod rng;
+mod sched;
 mod tower;
 
 extern "C" {
